@@ -413,6 +413,11 @@ class _Expr(ast.NodeTransformer):
         if isinstance(node.func, ast.Name) and node.func.id == "list" and len(node.args) == 1 and not node.keywords \
                 and isinstance(node.args[0], ast.GeneratorExp):
             return self.visit(ast.ListComp(elt=node.args[0].elt, generators=node.args[0].generators))
+        if isinstance(node.func, ast.Name) and node.func.id in _CTX.get("list_classes", ()) and len(node.args) == 1 \
+                and not node.keywords and isinstance(node.args[0], ast.GeneratorExp):
+            # a list subclass built from a generator consumes it at once, like from the list of its items
+            node.args[0] = self.visit(ast.ListComp(elt=node.args[0].elt, generators=node.args[0].generators))
+            return node
         if isinstance(node.func, ast.Name) and node.func.id == "getattr" and len(node.args) == 2 and not node.keywords \
                 and isinstance(node.args[1], ast.Constant) and isinstance(node.args[1].value, str) \
                 and node.args[1].value.isidentifier():
@@ -739,8 +744,12 @@ def _norm_simple(stmts, ctx):
                     st.body = [asg] + list(st.body)
                     changed = True
             # L = []; for x in S: L.append(E)   ->   L = [E for x in S]
+            empty_list = isinstance(st, ast.Assign) and (
+                (isinstance(st.value, ast.List) and not st.value.elts) or
+                (isinstance(st.value, ast.Call) and isinstance(st.value.func, ast.Name) and not st.value.args
+                 and not st.value.keywords and st.value.func.id in _CTX.get("list_classes", ())))
             if isinstance(st, ast.Assign) and len(st.targets) == 1 and isinstance(st.targets[0], ast.Name) \
-                    and isinstance(st.value, ast.List) and not st.value.elts and isinstance(nxt, ast.For) \
+                    and empty_list and isinstance(nxt, ast.For) \
                     and not nxt.orelse and len(nxt.body) == 1 and isinstance(nxt.body[0], ast.Expr) \
                     and isinstance(nxt.body[0].value, ast.Call) and isinstance(nxt.body[0].value.func, ast.Attribute) \
                     and nxt.body[0].value.func.attr == "append" and isinstance(nxt.body[0].value.func.value, ast.Name) \
@@ -753,6 +762,8 @@ def _norm_simple(stmts, ctx):
                 if not _count_loads(E, L) and not _count_loads(nxt.iter, L) and not later_use \
                         and not any(isinstance(n, (ast.Yield, ast.YieldFrom)) for n in ast.walk(nxt)):
                     comp = ast.ListComp(elt=E, generators=[ast.comprehension(target=nxt.target, iter=nxt.iter, ifs=[], is_async=0)])
+                    if isinstance(st.value, ast.Call):
+                        comp = ast.Call(func=st.value.func, args=[comp], keywords=[])
                     out.append(ast.Assign(targets=st.targets, value=comp, lineno=st.lineno, col_offset=0))
                     changed = True
                     i += 2
@@ -1593,7 +1604,7 @@ def _inline_all(f, helpers, methods):
     return f
 
 
-_CTX = {"generators": set()}
+_CTX = {"generators": set(), "list_classes": set()}
 
 
 def module_generators(tree):
@@ -1710,6 +1721,7 @@ def _clean(node):
 
 
 def canonical_ast(fn, helpers, methods=None, hier=None, segment=False):
+    _CTX["list_classes"] = {c for c, bases in (hier or {}).items() if "list" in bases}
     f = _clean(fn)
     used, frontier = set(), [f]
     allh = dict(helpers)
